@@ -86,3 +86,24 @@ class ParseFromFile:
         else:
             built = opaque("DDLParser", content, True, False, False, None, 20)
         return opaque("run", built, dump, dump_path, file_path, output_mode, group_by_type, False)
+
+
+@contract
+class CliRunForFile:
+    """the sdp command, for one file: exactly parse_from_file(<path>, dump = not --no-dump, dump_path = --target,
+    output_mode = --output-mode) - no other setting - and the result is printed exactly when -v or --no-dump is given"""
+    fn = "cli.run_for_file"
+    props = ["C19", "C16", "C10"]
+    abstract_callees = True
+    stub_calls = {"ddl_parser.parse_from_file": "parse-file"}
+    cases = {"any flags": {}}
+
+    def build(G, case):
+        args = G.obj("Namespace", ddl_file_path=G.str("path", None, "db/my.table.sql"), target=G.str("target", None, "schemas"), v=G.bool("v"),
+                     no_dump=G.bool("no_dump"), output_mode=G.str("mode", None, "hql"))
+        return dict(args=[args])
+
+    def spec(case, args):
+        ghost_call("parse-file", args.ddl_file_path, not args.no_dump, args.target, args.output_mode)
+        if args.v or args.no_dump:
+            ghost_call("print", opaque("parse-file", args.ddl_file_path))
